@@ -68,6 +68,7 @@ func genC10(seed int64, tier string) *Scenario {
 	}
 	from := len(sc.Ops)
 	writers := 0
+	lastReader := ""
 	var openList []string
 	for n := range open {
 		openList = append(openList, n)
@@ -82,7 +83,17 @@ func genC10(seed int64, tier string) *Scenario {
 		}
 		wantWriter := (i == k-1 && writers == 0) || r.Intn(5) < 2
 		if !wantWriter {
-			m := []string{"hover", "definition", "references", "rename", "documentSymbol", "workspaceSymbol", "completion", "highlight", "varColor", "hover", "references"}[r.Intn(11)]
+			m := []string{"hover", "definition", "references", "rename", "documentSymbol", "workspaceSymbol", "completion", "highlight", "varColor", "hover", "references", "completion", "signatureHelp"}[r.Intn(13)]
+			if lastReader != "" && r.Intn(4) == 0 {
+				m = lastReader // two requests of the same kind in flight (fast typing)
+			}
+			lastReader = m
+			if m == "completion" || m == "signatureHelp" {
+				// a completion needs a typed prefix: put the cursor inside or at the end of an identifier
+				if ends := identEndPositions(cur[n]); len(ends) > 0 {
+					p = ends[r.Intn(len(ends))]
+				}
+			}
 			op := Op{Kind: "req", Method: m, Path: n, Pos: &p, Async: true}
 			if m == "workspaceSymbol" {
 				op.Arg = "g"
@@ -206,8 +217,17 @@ func newRaceReports() []raceReport {
 		}
 		f1, file1 := innermostRepo(s1)
 		f2, file2 := innermostRepo(s2)
+		// An access made by the dispatcher while it encodes a handler's answer (or decodes its
+		// parameters) touches memory the server handed to it: if the other side is server code the
+		// server shares mutable state with an answer that is serialised after its handler returned.
+		if f1 == "" && f2 != "" && dispatcherCodec(s1) {
+			f1, file1 = "jrpc2 answer/params codec", "jrpc2"
+		}
+		if f2 == "" && f1 != "" && dispatcherCodec(s2) {
+			f2, file2 = "jrpc2 answer/params codec", "jrpc2"
+		}
 		if f1 == "" || f2 == "" {
-			continue // at least one side is not server code (harness, runtime, dispatcher)
+			continue // a side is neither server code nor the dispatcher's codec (harness, simulator)
 		}
 		if telemetryFile(file1) || telemetryFile(file2) {
 			continue // telemetry counters are outside the property
@@ -236,6 +256,12 @@ func innermostRepo(stack string) (fn, file string) {
 		// runtime.*, sync.*, bytes.*, strings.*, encoding/* ...: keep looking outwards
 	}
 	return "", ""
+}
+
+// dispatcherCodec: the access happens inside encoding/json called from the jrpc2 dispatcher.
+func dispatcherCodec(stack string) bool {
+	return strings.Contains(stack, "encoding/json.") && strings.Contains(stack, "github.com/yinfei8/jrpc2") &&
+		!strings.Contains(stack, "simrt.") && !strings.Contains(stack, "harness.")
 }
 
 func telemetryFile(f string) bool {
